@@ -1004,3 +1004,21 @@ def large_items(rules=("TSLACK",)):
             for rule in rules:
                 out.append((sp, {"rule": rule, "absence": list(ab), "max_time": seq_bound(sp) + len(ab) + 20}))
     return out
+
+
+def ff_chain_specs():
+    """a long finish-to-finish (or start-to-finish headed) chain whose members all run out of work in the same step while the head is still busy:
+    X -k0-> B1 -FF-> B2 ... -FF-> Bn, every task with a worker of its own; declared and listed forwards and backwards"""
+    out = []
+    for n in (5, 6, 12):
+        for k0 in ("FF", "SF"):
+            tasks = [{"name": tname(0), "work": 3.0}] + [{"name": tname(i), "work": 1.0} for i in range(1, n + 1)]  # (T0 is the head X, T1..Tn the chain B1..Bn)
+            links = [[i, i + 1, k0 if i == 0 else "FF"] for i in range(n)]
+            for rev in (False, True):
+                sp = with_teams({"tasks": tasks, "links": links if not rev else links[::-1]}, "DED")
+                if rev:
+                    sp["order"] = list(range(n + 1))[::-1]
+                    sp["hash"] = list(range(n + 1))[::-1]
+                sp["label"] = "ff-chain:%d:%s:%s" % (n, k0, "reversed" if rev else "forward")
+                out.append(sp)
+    return out
